@@ -129,6 +129,10 @@ struct Shared {
     acquired: u32,
     refused: u32,
     log: Vec<String>,
+    /// step at which the current meta.json came into being (None = no meta.json)
+    meta_since: Option<u64>,
+    /// step of each actor's last read of lock.json
+    last_lock_read_step: BTreeMap<usize, u64>,
 }
 
 const EXTERNAL_LIVE_PID: i32 = seam::FAKE_PID_BASE + 900;
@@ -202,6 +206,9 @@ pub fn execute(sc: &Scenario, env: &Env) -> (Outcome, RunStats) {
             g.lock_creator = Some(EXTERNAL_LIVE_PID);
             g.holders.push(EXTERNAL_LIVE_PID);
         }
+    }
+    if auth.join("meta.json").exists() {
+        shared.lock().unwrap().meta_since = Some(0);
     }
     stats.bump(&format!("initial:{:?}", std::mem::discriminant(&sc.initial)).replace("Discriminant", ""), 1);
 
@@ -318,6 +325,7 @@ pub fn execute(sc: &Scenario, env: &Env) -> (Outcome, RunStats) {
             EffectKind::OpenRead if on_lock => {
                 let c = g.lock_creator;
                 g.last_seen_lock.insert(ev.actor, c);
+                g.last_lock_read_step.insert(ev.actor, ev.step);
             }
             EffectKind::OpenRead if on_meta => {
                 let c = g.meta_writer;
@@ -349,11 +357,17 @@ pub fn execute(sc: &Scenario, env: &Env) -> (Outcome, RunStats) {
                                 "live_authority_files_taken:{what}:{shape}:{}",
                                 match e.path2.as_deref() {
                                     // a corrupt-lock cleanup is only ever legitimate when no endpoint record exists
+                                    // a corrupt-lock cleanup is only legitimate when no endpoint
+                                    // record exists; one that was already there when this actor
+                                    // last looked at the lock must have stopped it, one that
+                                    // appeared afterwards is the read-then-act window again
                                     Some(t) if t.contains(".corrupt-") => {
-                                        if std::path::Path::new(&e.path).with_file_name("meta.json").exists() {
-                                            "via_corrupt_cleanup:meta_present"
-                                        } else {
-                                            "via_corrupt_cleanup:meta_absent"
+                                        let present = std::path::Path::new(&e.path).with_file_name("meta.json").exists();
+                                        let decided_at = g.last_lock_read_step.get(&ev.actor).copied().unwrap_or(0);
+                                        match (present, g.meta_since) {
+                                            (true, Some(since)) if since < decided_at => "via_corrupt_cleanup:meta_present_before_decision",
+                                            (true, _) => "via_corrupt_cleanup:meta_appeared_late",
+                                            _ => "via_corrupt_cleanup:meta_absent",
                                         }
                                     }
                                     Some(t) if t.contains(".stale-") => "via_stale_cleanup",
@@ -369,10 +383,12 @@ pub fn execute(sc: &Scenario, env: &Env) -> (Outcome, RunStats) {
                     g.lock_creator = None;
                 } else {
                     g.meta_writer = None;
+                    g.meta_since = None;
                 }
             }
             EffectKind::Rename if onto_meta => {
                 g.meta_writer = Some(actor_pid);
+                g.meta_since = Some(ev.step);
             }
             EffectKind::Rename if onto_lock => {
                 g.lock_creator = Some(actor_pid);
